@@ -9,9 +9,12 @@ lines forced to wrap at every column) and a stream of models the format cannot e
       `_WidthLimitedFile` + number formatting) from the coefficients the real CQM reports equals
       `lp.dumps(cqm)` byte for byte; refusals agree in kind (soft / label / SPIN) and order;
       `_validate_label` agrees with `Lp.validLabel` on every generated label.
-(ii)  correspondence, reader: `lp.loads(text)` (the real C++ parser + `model_to_cqm`, not modelled)
-      equals what the specification-level reader `Lp.loads` gives on the same text: variable order,
-      types, bounds, objective, constraint labels / senses / right-hand sides / left-hand sides.
+(ii)  correspondence, reader: `lp.loads(text)` (the real C++ parser + `model_to_cqm`, run in a child interpreter)
+      equals what the specification-level reader `Lp.loads` AND the Lean model of the C++ reader as coded
+      (`LpCpp.loads`, driver op `lpread`) give on the same text: variable order, types, bounds, objective,
+      constraint labels / senses / right-hand sides / left-hand sides.  The reader model is also driven on
+      hand-style LP texts and their near misses (`harness/props/c12_hand.py`), where the real parser is in
+      addition compared with an independent reference reading of the generation data.
 (iii) property predicate, independent of the model and of the writer's bookkeeping: `loads(dumps(cqm))`
       compared with the *generation data*: same variables with same types and bounds, same constraint
       labels and senses, objective equal as a polynomial (hence at every sample), every constraint's
@@ -38,11 +41,45 @@ UNREADABLE = 'label is not an identifier for the LP reader (keyword, inf/nan pre
 PRE = 'import dimod\nfrom dimod import lp\nfrom fractions import Fraction as F\n'
 VT = {'B': dimod.BINARY, 'I': dimod.INTEGER, 'R': dimod.REAL, 'S': dimod.SPIN}
 SENSES = {'le': '<=', 'ge': '>=', 'eq': '=='}
+LOADER = None
 INTMAX, REALMAX = F(2 ** 53 - 1), F(1e30)
+
+
+def dy_long(r):
+    """numbers that need many significant digits (7..16): large integers up to 2**53, dyadic fractions with up to 10 binary places.
+    All are doubles whose exact decimal expansion has at most 15 significant digits (or integers below 1e16), so that
+    `repr(float)` is that expansion, and all lie in repr's positional range 1e-4 <= |q| < 1e16."""
+    m = r.random()
+    if m < .3:
+        q = F(r.choice([1234567, 10 ** 6 + 1, 2 ** 24 + 1, 2 ** 31 - 1, 2 ** 40 + 3, 10 ** 15 + 1, 2 ** 53 - 1, 2 ** 53, 123456789012]))
+    elif m < .5:
+        q = F(r.randint(10 ** 6, 10 ** 13))
+    else:
+        j = r.choice([4, 6, 8, 10])
+        q = F(r.randint(1, 2 ** 24) * 2 + 1, 2 ** j)
+    return q if r.random() < .5 else -q
+
+
+def short_decimal(q):
+    """an integer below 1e16 in magnitude, or a terminating decimal of at most 15 significant digits: `repr(float(q))` is then the
+    exact positional expansion"""
+    if q.denominator == 1:
+        return abs(q) < 10 ** 16
+    k = 0
+    while (q * 10 ** k).denominator != 1:
+        k += 1
+        if k > 40:
+            return False
+    return len(str(abs(int(q * 10 ** k)))) <= 15 and abs(q) >= F(1, 10 ** 4)
+
+
+LONG = [0.0]          # share of long numbers in the stream (set by run)
 
 
 def dy(r, nz=False):
     while True:
+        if r.random() < LONG[0]:
+            return dy_long(r)
         q = F(r.randint(-64, 64), 8) if r.random() < .6 else F(r.randint(-8, 8))
         if q or not nz:
             return q
@@ -52,6 +89,22 @@ def gen_label(r, used, long=False):
     while True:
         n = 255 if long else r.choice([1, 1, 2, 3, 5, 8, 12, 20, 33])
         s = r.choice([c for c in VALID if c not in BADFIRST]) + ''.join(r.choice(VALID if r.random() < .3 else string.ascii_lowercase + '_') for _ in range(n - 1))
+        # families of labels that are prefixes / extensions of one another (x1, x10, x11; cap, cap_max), and labels that differ in
+        # their last character only or in case only: name lookups that compare less than the whole name confuse them
+        strs = [u for u in used if isinstance(u, str) and u]
+        if strs and not long and r.random() < .35:
+            base = r.choice(strs)
+            m = r.random()
+            if m < .45 and len(base) < 250:
+                s = base + ''.join(r.choice(string.digits + '_' + string.ascii_lowercase) for _ in range(r.choice([1, 1, 2, 4])))
+            elif m < .8 and len(base) > 1:
+                s = base[:r.randint(1, len(base) - 1)]
+            elif m < .9:
+                s = base[:-1] + r.choice(string.ascii_letters + string.digits + '_')
+            else:
+                s = base.swapcase()
+            if s[0] in BADFIRST or any(c not in VALID for c in s):
+                continue
         if s.lower() in RESERVED or s.lower() in PAIRWORDS or s.lower().startswith(('inf', 'nan')) or s in used:
             continue
         used.add(s)
@@ -88,7 +141,10 @@ class Gen:
         self.cons = []
         for i in range(r.choice([0, 1, 1, 2, 3, 4])):
             e = self.gen_expr(r, allow_empty=r.random() < .05, wrapmode=wrapmode)
-            self.cons.append((gen_label(r, used, long=r.random() < .05), e, r.choice(['le', 'ge', 'eq']), dy(r)))
+            rhs = dy(r)
+            if F(float(rhs) - float(e[2])) != rhs - e[2] or not short_decimal(rhs - e[2]):
+                e = (e[0], e[1], F(0))       # the writer folds the constant into the right-hand side in double arithmetic: keep that exact
+            self.cons.append((gen_label(r, used, long=r.random() < .05), e, r.choice(['le', 'ge', 'eq']), rhs))
 
     def gen_expr(self, r, allow_empty, wrapmode=False):
         names = [v[0] for v in self.vars]
@@ -288,6 +344,9 @@ def mutate_text(r, text):
 
 def run(ctx):
     r = ctx.rng
+    from harness.props.c12_hand import RealLoader
+    global LOADER
+    LOADER = RealLoader()
     ctx.rule = ('random LP-expressible CQMs (1-8 variables, labels over the full LP alphabet incl. 255-character labels, default and '
                 'explicit bounds, squared / zero / negative / fractional coefficients, offsets, empty objectives and left-hand sides) '
                 'plus a 15% stream of non-expressible models (SPIN, soft constraint, invalid labels); a case = one model; '
@@ -296,7 +355,12 @@ def run(ctx):
     n_models = ctx.scale(3000, 40000)
     for mi in range(n_models):
         wrapmode = mi % 5 == 4
+        # every third model draws a quarter of its numbers (coefficients, offsets, right-hand sides) from the many-digit stream
+        LONG[0] = .25 if mi % 3 == 1 else 0.0
         g = Gen(r, wrapmode=wrapmode)
+        LONG[0] = 0.0
+        if mi % 3 == 1:
+            ctx.tick('numbers: many significant digits')
         bad = None
         kw = {}
         if r.random() < .15:
@@ -384,14 +448,14 @@ def run(ctx):
         lines.append('dump ' + wire); expect.append('ok ' + text.encode().hex()); meta.append(('lp.dump', src))
         # ---- read back with the real parser
         try:
-            back = lp.loads(text)
+            back_canon = LOADER.loads_or_raise(text)
         except Exception as e:  # noqa
             ctx.fail('property', 'lp.loads', 'written file does not load', f'{type(e).__name__}: {e}', repro=PRE + src + 'lp.loads(lp.dumps(cqm))\n',
                      detail=dict(text=text[:600]))
             continue
         # (iii) property predicate against the generation data
         info = {v: (k, lb, ub) for v, k, lb, ub in g.vars}
-        bvars, bobj, bcons = canon_real(back)
+        bvars, bobj, bcons = back_canon
         what = None
         if {v for v, *_ in bvars} != set(info) or len(bvars) != len(info):
             what = ('variables', f'variables {sorted(v for v, *_ in bvars)} != {sorted(info)}', 'assert set(back.variables) == set(cqm.variables)')
@@ -438,7 +502,7 @@ def run(ctx):
             mt, mkind = mutate_text(r, text)
             if mt is not None and mt != text:
                 try:
-                    mb = canon_real(lp.loads(mt))
+                    mb = LOADER.loads_or_raise(mt)
                 except Exception:  # noqa
                     mb = None
                 ctx.tick('near miss: ' + mkind + ('' if mb is not None else ' (refused by the real parser)'))
@@ -469,7 +533,7 @@ def run(ctx):
                         continue
                     lines.append('dump ' + cqm_wire(cqm)); expect.append('ok ' + text.encode().hex()); meta.append(('lp.dump', dsrc))
                     try:
-                        bvars, bobj, bcons = canon_real(lp.loads(text))
+                        bvars, bobj, bcons = LOADER.loads_or_raise(text)
                         okp = (bvars == [(nm, k, lb, ub) for nm, k, lb, ub in gd.vars] and
                                bobj == merged(list(gd.obj[0].items()), [], gd.obj[2]) and
                                [(c[0], c[1], c[2], c[3]) for c in bcons] == [('c0', 'le', F(3), merged([(nm, F(1)) for nm, _ in names], [], F(0)))])
@@ -508,8 +572,8 @@ def run(ctx):
                 except ValueError:
                     continue
                 try:
-                    back = lp.loads(text)
-                    same = set(back.variables) == set(cqm.variables) and list(back.constraints) == list(cqm.constraints)
+                    bvs, _, bcs = LOADER.loads_or_raise(text)
+                    same = {v for v, *_ in bvs} == set(cqm.variables) and [c[0] for c in bcs] == list(cqm.constraints)
                 except Exception:  # noqa
                     same = False
                 if not same:
@@ -540,13 +604,72 @@ def run(ctx):
         if not okp or pos != len(out):
             ctx.fail('property', 'lp._WidthLimitedFile', 'write split', 'output is not the writes with "\\n " inserted between some of them',
                      repro=PRE + f'import io\nbuf = io.StringIO(); f = lp._WidthLimitedFile(buf)\nfor w in {writes!r}: f.write(w)\nprint(repr(buf.getvalue())); assert False\n')
+    # ---- the Lean model of the C++ reader (`lpread`): on every text the specification reader was given (writer output and its
+    # near misses) it must read what the real parser read
+    for i in range(len(lines)):
+        if lines[i].startswith('load ') and isinstance(expect[i], tuple):
+            lines.append('lpread ' + lines[i][5:]); expect.append(expect[i]); meta.append((meta[i][0] + ' [C++ reader model]', meta[i][1]))
+    # ---- hand-style LP texts and their near misses: reference reading (generation data) vs real parser vs reader model
+    from harness.props import c12_hand as H
+    htexts, hexp, hkind = [], [], []
+    for k in range(ctx.scale(700, 12000)):
+        h = H.Hand(r)
+        if not h.bounds_consistent():
+            ctx.tick('hand-style: skipped (lower bound above upper bound: debug assertion of the C++ CQM)')
+            continue
+        t = h.render()
+        htexts.append(t); hexp.append(h.expected()); hkind.append('hand-style')
+        ctx.case(('hand', t), nontrivial=True, sample=dict(text=t[:500]) if k % 211 == 5 else None)
+        for _ in range(r.choice([1, 2])):
+            mt, mk = H.mutate(r, t)
+            if mt != t:
+                htexts.append(mt); hexp.append(None); hkind.append('hand-style near miss: ' + mk)
+                ctx.case(('hand near miss', mt), nontrivial=True)
+    # the list of `cpp_reader_refuses_malformed` (read from the Lean source): the real parser must refuse every one of them
+    import os, re
+    lean_src = open(os.path.join(os.path.dirname(os.path.dirname(os.path.dirname(os.path.abspath(__file__)))), 'lean', 'DimodProofs', 'LpReader.lean')).read()
+    blk = lean_src[lean_src.index('def malformedTexts'):]
+    blk = blk[:blk.index(']\n') + 1]
+    malformed = [t.encode().decode('unicode_escape') for t in re.findall(r'^\s*\[?"((?:[^"\\]|\\.)*)"', blk, re.M)]
+    if len(malformed) < 20:
+        ctx.fail('correspondence', 'lean/DimodProofs/LpReader.lean', 'malformedTexts not found', f'{len(malformed)} texts extracted')
+    for t in malformed:
+        htexts.append(t); hexp.append('REFUSE'); hkind.append('malformed text of the refusal theorem')
+        ctx.case(('malformed', t), nontrivial=True)
+    hreal = H.real_batch(htexts)
+    for t, e, kd, real in zip(htexts, hexp, hkind, hreal):
+        ctx.tick(kd + {'ok': '', 'exc': ' (refused)', 'nonfinite': ' (non-finite number read)', 'abort': ' (debug assertion)'}[real[0]])
+        if e == 'REFUSE':
+            if real[0] != 'exc':
+                ctx.fail('correspondence', 'lp.loads (malformed text)', 'a text of cpp_reader_refuses_malformed is not refused by the real parser',
+                         f'lp.loads gives {real}', detail=dict(text=t[:500]))
+        elif e is not None and (real[0] != 'ok' or real[1] != e):
+            ctx.fail('correspondence', 'lp.loads (hand-style text)', 'real parser vs reference reading of the generation data',
+                     f'lp.loads gives {real} ; the text denotes {e}', detail=dict(text=t[:1500]))
+        lines.append('lpread ' + t.encode().hex()); expect.append(('HAND', real)); meta.append(('lp.loads (' + kd + ') vs C++ reader model', t))
+    LOADER.close()
     got = run_driver('lpdriver', lines)
     ctx.corr_lines += len(lines)
     nbad = 0
     for i, ln in enumerate(lines):
         gl = got[i] if i < len(got) else 'MISSING'
         exp = expect[i]
-        if isinstance(exp, tuple):
+        if isinstance(exp, tuple) and exp[0] == 'HAND':
+            real = exp[1]
+            if gl == 'err unmodelled':
+                ctx.tick('reader model: unmodelled text (nan / hex float / control character / non-finite coefficient)')
+                ok = True
+            elif gl == 'err assertion':
+                ok = real[0] in ('abort', 'ok')          # release builds store the bounds unchecked
+            elif gl == 'err refused':
+                ok = real[0] == 'exc'
+            else:
+                ok = gl.startswith('ok ') and real[0] == 'ok' and parse_model_cqm(gl[3:]) == real[1]
+            if not ok:
+                ctx.fail('correspondence', meta[i][0], 'real parser vs C++ reader model',
+                         f'lp.loads gives {real} ; reader model gives {gl[:400]}', detail=dict(text=meta[i][1][:1500]))
+                nbad += 1
+        elif isinstance(exp, tuple):
             ok = gl.startswith('ok ') and parse_model_cqm(gl[3:]) == exp[1]
             if not ok:
                 ctx.fail('correspondence', meta[i][0], 'real parser vs specification reader',
